@@ -170,6 +170,8 @@ Section B2.
     apply lift_ok in HF as [HF _]. rewrite (com2_Cm n Hn g gi h hi Hg Hh) in HF. inversion HF; subst F; clear HF.
     cbn [sq_E sq_F sq_ss]. split; [reflexivity|].
     unfold verify_of_square. cbn [sq_E sq_F sq_ss].
+    pose proof (Cm_range n Hn g gi h hi x r2) as HFr.
+    destruct (Z.ltb_spec (C x r2) 0) as [|_]; [lia|]. destruct (Z.leb_spec n (C x r2)) as [|_]; [lia|]. cbn [orb].
     destruct (Cm_invertible n Hn g gi h hi Hg Hh x r2) as [Fi HFi].
     destruct (Cm_invertible n Hn g gi h hi Hg Hh (x ^ 2) r1) as [Ei HEi].
     eapply (same_secret_complete n Hn g gi h hi (C x r2) Fi h hi Hg Hh HFi Hh BP x r2 (r1 - r2 * x) b s2x (C x r2) Fi (C (x ^ 2) r1) Ei);
@@ -331,7 +333,10 @@ Section B3.
       eapply eqm_trans; [apply (Cm_pow n Hn g gi h hi); exact H2T|].
       replace (value * two T) with (two T * value) by ring. replace (c_rand c * two T) with (two T * c_rand c) by ring. apply eqm_refl. }
     unfold boudot_verify. destruct (Z.leb_spec rmax rmin); [lia|]. fold T.
-    cbn [bd_E bd_Eprime bd_wt]. rewrite HEp. cbn [bind]. rewrite Z.eqb_refl.
+    cbn [bd_E bd_Eprime bd_wt].
+    pose proof (Cm_range n Hn g gi h hi value (c_rand c)) as HEr. rewrite <- HC in HEr.
+    destruct (Z.ltb_spec (c_value c) 0) as [|_]; [lia|]. destruct (Z.leb_spec n (c_value c)) as [|_]; [lia|]. cbn [orb].
+    rewrite HEp. cbn [bind]. rewrite Z.eqb_refl.
     rewrite HEpv. eapply tolerance_complete; [exact Ht|exact Hwt].
   Qed.
 End B3.
